@@ -127,10 +127,12 @@ def snapshot_for(tr, t, rule):
             "ifc": list(sc["ifc"]), "always": sc["always"]}
 
 
-def reasons_to_run(tr, t, before_files, stamped):
+def reasons_to_run(tr, t, before_files, stamped, _visiting=None):
     """Why a redo-ifchange may legitimately have run t's script (evaluated with
     end-of-command versions).  Empty list = over-build."""
     why = []
+    if _visiting is None:
+        _visiting = {t}
     m = tr.memo.get(t)
     if m is None:
         return ["never built successfully"]
@@ -149,6 +151,13 @@ def reasons_to_run(tr, t, before_files, stamped):
     for d, (v, content) in m["deps"].items():
         if tr.ver.get(d, 0) != v or d in tr.last_failed_now:
             why.append("dependency %s changed" % d)
+        elif d in tr.memo and d not in stamped and d not in _visiting:
+            # a plain target that is itself out of date makes its dependents out of date
+            _visiting.add(d)
+            sub = reasons_to_run(tr, d, before_files, stamped, _visiting)
+            _visiting.discard(d)
+            if sub:
+                why.append("dependency %s is itself out of date (%s)" % (d, sub[0]))
     return why
 
 
@@ -227,6 +236,17 @@ def check_history(line, real, want):
                     tr.memo.setdefault(n, None)
                     if tr.memo[n] is None:
                         del tr.memo[n]
+            # a file with no rule left that redo has looked at is a source from now on
+            # (redo's documented policy: it will never overwrite it again)
+            gen = {}
+            for row in digest.split(" rows=")[1].split(" deps=")[0].split("|"):
+                f = row.split(":")
+                if len(f) >= 8:
+                    gen[f[0]] = f[1]
+            for n in tr.closure(ts):
+                if n not in tr.scripts and tr.rule_for(n) is None and n in tr.files and gen.get(n) == "0":
+                    tr.owner[n] = "user"
+                    tr.memo.pop(n, None)
             # ---- once per command
             if "once" in want and t[1] == "ifchange":
                 for n in set(trace):
